@@ -126,6 +126,12 @@ func buildPoisons(seed int64) []poison {
 		{"sample.StringPacket", "FieldDynamicString1List", func() any { return []any{[]int{0x41}, make([]int, 65536)} }},
 		{"hw.RiskControlRequest", "ExtraInfo", func() any { return []any{[]int{0x42}, make([]int, 65536)} }},
 		{"sample.BasicPacket", "FieldU8List", func() any { return rep(65536, []int{7}) }},
+		// an ELEMENT of an object list is refused after an earlier element (and the count) went through
+		{"sample.NestedPacket", "SubPacketList", func() any {
+			good, bad := g.Value("sample.SubPacket", Canon), g.Value("sample.SubPacket", Canon)
+			bad["FieldI16List"] = rep(65536, []int{1, 2})
+			return []any{good, bad, g.Value("sample.SubPacket", Canon)}
+		}},
 	}
 	for _, c := range long {
 		td, ok := S.Types[c.t]
